@@ -47,7 +47,7 @@ def st_liesel_graph():
         iu = next((i for i, e in enumerate(t["ev"]) if e["ev"] in ("update_all", "update_targets") and e["evald"]), None)
         if ia is not None and iu is not None:
             break
-    cfg = 'CONSTANTS None = "-"\n Apply <- ApplyStr\n Draw <- DrawStr\n FromScratch = TRUE\n'
+    cfg = 'CONSTANTS None = "-"\n Apply <- ApplyStr\n Draw <- DrawStr\n FromScratch = TRUE\n ErrVal = "ERR"\n'
     n_val = t["ev"][ia]["n"] - 1
 
     def c1(tr):
